@@ -64,7 +64,69 @@ class Machine(object):
                   'interleavings': {_interleaving(prog)}, 'checks': ex.events,
                   'passes': {'fault_free' if survey_in is None else 'faulted': 1}}
             return {'violations': ex.viol, 'stats': st, 'digest': w.digest(), 'program': prog, 'survey': survey}
+        if prog.get('config', {}).get('possweep') and common.has_unresolved_faults(prog):
+            return self._pos_sweep(prog, child, mode)
         return common.run_two_pass(prog, child, self.RUN_TIMEOUT, mode=mode)
+
+    POS_SWEEP = 32
+
+    def _pos_sweep(self, prog, child, mode):
+        """Crash-point enumeration for one operation: pass A counts the eligible
+        library entries (and callback invocations) inside the faulted step; the program
+        is then executed once per position on an even grid over them (at most
+        POS_SWEEP primitive positions with rotating exception types, at most 12
+        callback invocations), each from the pristine state."""
+        import hashlib
+        from simkit import isolate
+        from simkit.driver import merge_stats
+        pa = json.loads(json.dumps(prog))
+        st, A = isolate.call(child, (pa, {}, None), timeout=self.RUN_TIMEOUT, mode=mode)
+        if st == 'timeout':
+            return {'status': 'inconclusive'}
+        if st != 'ok':
+            raise RuntimeError('run child (sweep pass A) crashed: %s' % (A,))
+        if A.get('violations'):
+            A['program'] = common.strip_all_faults(A.get('program') or pa)
+            return A
+        total = {}
+        merge_stats(total, A.get('stats', {}))
+        digests = [str(A.get('digest'))]
+        fstep = [s for s in prog['steps'] if s.get('fault') and not s['fault'].get('resolved')][0]
+        sv = (A.get('survey') or {}).get(fstep.get('id')) or {}
+        n = sv.get('starts', 0)
+        variants = []
+        if n >= 1:
+            K = min(self.POS_SWEEP, n)
+            pos = sorted(set(1 + (i * (n - 1)) // max(1, K - 1) for i in range(K)))
+            for i, k in enumerate(pos):
+                variants.append({'kind': 'F2', 'k': k, 'n': n, 'exc': F2_EXC[i % len(F2_EXC)], 'resolved': True, 'placement': 'enumerated'})
+        cb = (sv.get('cb') or [0])[0] if sv.get('cb') else 0
+        if cb >= 1:
+            K = min(12, cb)
+            for k in sorted(set(1 + (i * (cb - 1)) // max(1, K - 1) for i in range(K))):
+                variants.append({'kind': 'F1', 'k': k, 'n': cb, 'slot': 0, 'act': 'raise', 'resolved': True, 'placement': 'enumerated'})
+        out = None
+        done = 0
+        for v in variants:
+            pb = json.loads(json.dumps(prog))
+            for s in pb['steps']:
+                if s.get('id') == fstep.get('id'):
+                    s['fault'] = v
+            st, B = isolate.call(child, (pb, None, {}), timeout=self.RUN_TIMEOUT, mode=mode)
+            if st != 'ok':
+                continue
+            done += 1
+            merge_stats(total, B.get('stats', {}))
+            digests.append(str(B.get('digest')))
+            if B.get('violations'):
+                out = B
+                out['program'] = pb
+                break
+        total.setdefault('rare', {})['crash_points_enumerated'] = done
+        res = out or {'violations': [], 'program': prog}
+        res['stats'] = total
+        res['digest'] = hashlib.sha256(''.join(digests).encode()).hexdigest()
+        return res
 
     def simplify(self, prog):
         return _min.generic_simplify(prog)
@@ -256,10 +318,38 @@ class _Gen(object):
             steps.append(st)
         return {'config': self.cfg, 'steps': steps}
 
+    def possweep_program(self):
+        """one catalogue call at a non-image precision, to be aborted at every position of
+        an even grid over its internal entries / callback invocations (Machine._pos_sweep)"""
+        r = self.rng
+        actor = r.choice(['mp', 'mp', 'mp', 'c1', 'iv'])
+        kind = 'mp' if actor in ('mp', 'c1') else actor
+        ents = [e for e in catalogue.CAT if kind in e.ctxs and e.cost <= 2]
+        e = r.choice(ents)
+        self.cfg['possweep'] = e.key
+        steps = []
+        if actor == 'c1':
+            steps.append({'kind': 'clone', 'actor': 'c1', 'parent': 'mp', 'id': self.new_id()})
+            self.gm.clone('c1', 'mp')
+        p = pick_prec(r, min(e.maxprec, 300))
+        while p in _DPS_IMAGES:
+            p += 1
+        s = {'kind': 'setprec', 'actor': actor, 'value': {'t': 'int', 'v': p}, 'id': self.new_id()}
+        self._track(s)
+        steps.append(s)
+        st = e.gen(r, self.cfgw, actor=actor)
+        st['id'] = self.new_id()
+        st['fault'] = {'kind': 'F2', 'u': 0.0, 'exc': 'SimFault'}
+        steps.append(st)
+        return {'config': self.cfg, 'steps': steps}
+
     def program(self):
         r = self.rng
-        if r.random() < 0.25:
+        c0 = r.random()
+        if c0 < 0.25:
             return self.sweep_program()
+        if c0 < 0.40:
+            return self.possweep_program()
         steps = []
         created = set(['mp', 'iv', 'fp'])
         # starting precisions: ~70 % not the image of an integer dps
